@@ -158,6 +158,50 @@ def rule_caches_only_called(ctx, rid="R7.4"):
     return r
 
 
+def rule_no_held_iterator(ctx, rid="R7.5"):
+    """An error iterator (the generator returned by iter_errors/descend) restores the resolver's scope only when it is exhausted
+    or finalised.  A temporary is finalised at once; a generator bound to a local lives as long as the frame -- and a frame is
+    kept alive by the traceback of any exception raised from it."""
+    prog = ctx.prog
+    calls = calls_of(prog)
+    V = calls.V
+    gens = {V.methods["iter_errors"], V.methods["descend"]}
+    r = ctx.rule(rid, "no partially consumed error iterator is kept in a local variable (it would outlive the call through an exception's traceback)", floor=20)
+    for f in sorted(prog.funcs.values(), key=lambda x: x.qual):
+        if f.mod.name in ("_reflect",):
+            continue
+        holds = []
+        for n in walk_body(f):
+            if isinstance(n, ast.Assign) and len(n.targets) == 1 and isinstance(n.targets[0], ast.Name) and isinstance(n.value, ast.Call):
+                tg = calls.callee(f, n.value)
+                if any(t.kind == "func" and t.func in gens for t in tg) or (isinstance(n.value.func, ast.Attribute) and n.value.func.attr in ("iter_errors", "descend")):
+                    holds.append((n.targets[0].id, n))
+        uses_gen = any(isinstance(n, ast.Call) and isinstance(n.func, ast.Attribute) and n.func.attr in ("iter_errors", "descend") for n in walk_body(f))
+        if not uses_gen:
+            continue
+        if not holds:
+            r.ok(site(f), "error iterators are temporaries (consumed by for/list/next/best_match in the same expression)")
+            continue
+        for name, node in holds:
+            bad = None
+            for n in walk_body(f):
+                if isinstance(n, ast.Call) and norm(n.func) in ("next",) and n.args and isinstance(n.args[0], ast.Name) and n.args[0].id == name:
+                    bad = n
+                if isinstance(n, ast.Call) and norm(n.func) in ("any", "all") and n.args and name in {x.id for x in ast.walk(n.args[0]) if isinstance(x, ast.Name)}:
+                    bad = n
+                if isinstance(n, ast.For) and isinstance(n.iter, ast.Name) and n.iter.id == name:
+                    for sub in ast.walk(n):
+                        if isinstance(sub, (ast.Break, ast.Return, ast.Raise)):
+                            bad = sub
+            if bad is None:
+                r.ok(site(f, node), "%s is consumed completely" % name)
+            else:
+                r.fail("%s|held-iterator|%s" % (f.qual, name), site(f, bad),
+                       "the error iterator bound to `%s` is consumed only partly (`%s`) while the local keeps it alive: if an exception leaves this frame, "
+                       "its traceback holds the suspended generator and the resolution scope it entered is not left" % (name, norm(bad)[:50]))
+    return r
+
+
 def run(ctx):
     ctx.explanation = (
         "Decides the structural clauses of C07 from source: (R7.1) an effect/alias analysis over every "
@@ -176,3 +220,4 @@ def run(ctx):
     scope.rule_who_writes_stack(ctx, "R7.2w")
     rule_failed_retrieval(ctx)
     rule_caches_only_called(ctx)
+    rule_no_held_iterator(ctx)
